@@ -73,3 +73,9 @@ def gen_cases(tier, seed):
 
 def run_cases(cases, rec, tier='quick', seed='0'):
     common.run_encode_cases(cases, rec, {'C01'})
+
+
+def main_phase(tier, seed, rec):
+    """Thorough tier: the repository's own test-suite as one more workload under the same monitor."""
+    if tier == 'thorough':
+        common.suite_under_monitors({'C01'}, rec)
